@@ -250,7 +250,7 @@ PROPS = {
         rule=("rapid histories of 1..12 messages over 32 message kinds (6 start, 11 verify, 12 key-exchange, 3 other variants) for random setup code, controller id and key seed. "
               "Non-trivial: at least one key-exchange message sent after at least one verify message on the same connection. Distinct by (code, id, seed, history)."),
         assumptions=["the attacker does not know the setup code; forged keys are derived only from public values"],
-        essential_classes=["exchange-genuine:accepted<-verify-right", "exchange-zero-key<-verify-A-zero", "exchange-zero-key<-verify-right", "exchange-replayed<-verify-right", "exchange-second-identity<-verify-right", "exchange-empty-secret<-verify-A-zero-public-proof", "two-connections", "regress"],
+        essential_classes=["exchange-genuine:accepted<-verify-right", "exchange-zero-key<-verify-A-zero", "exchange-zero-key<-verify-right", "exchange-replayed<-verify-right", "exchange-second-identity<-verify-right", "exchange-empty-secret<-verify-A-zero-public-proof", "two-connections", "regress", "burst>=10-failed-attempts"],
         jobs=[
             dict(test="TestC02Regress", kind="plain"),
             dict(test="TestC02Prop", kind="rapid", checks={Q: 60, T: 2500}, shards=16),
@@ -311,7 +311,7 @@ PROPS = {
         rule=("rapid cases: accessories in {1,2,4,11,41,120}, 1..6 characteristics per service, constructor window offset drawn; 3..15 actions from {set+GET one id, set several + GET many ids, set several + GET /accessories, PUT}. "
               "Non-trivial: a value different from the default was set or written, or the id list contained a missing id, or the response spanned several frames. Distinct by (database shape, action history). coverage.extra counts how often each constructor's characteristic was set."),
         assumptions=["application-side values are inside the characteristic's declared bounds"],
-        essential_classes={Q: ["format:bool/set", "format:float/set", "format:string/set", "format:tlv8/set", "format:uint8/put", "missing-id", "write-only-id", "accessories", "multi-frame-response", "concurrent-controllers", "missing-id:unknown-aid+known-iid", "missing-id:iid-of-other-accessory"],
+        essential_classes={Q: ["format:bool/set", "format:float/set", "format:string/set", "format:tlv8/set", "format:uint8/put", "missing-id", "write-only-id", "accessories", "multi-frame-response", "concurrent-controllers", "missing-id:unknown-aid+known-iid", "missing-id:iid-of-other-accessory", "put-many", "accessories=k*2048"],
                            T: ["format:bool/set", "format:float/set", "format:string/set", "format:tlv8/set", "format:uint8/put", "format:string/put", "missing-id", "write-only-id", "repeated-id", "accessories", "multi-frame-response", "response>100k", "accessories=120"]},
         jobs=[
             dict(test="TestC09Prop", kind="rapid", checks={Q: 60, T: 2500}, shards=14),
